@@ -190,6 +190,16 @@ theorem c20_one_line_per_ip (c : Cfg) (t : St) (ht : t.writes = true) :
     (exabgpLines c t).length = c.ips.length := by
   rw [exabgpLines_spec c t ht, List.length_mapIdx]
 
+/-- **Every line the program ever writes** — during any iterations, with or without
+    `--interval 0`, and on exit — is the rendering of the configured command of one of the writing
+    targets (UP, DOWN, DISABLED, EXIT) for one of the configured ips. -/
+theorem c20_every_line_is_configured (c : Cfg) (inputs : List Inp) (ln : String)
+    (h : ln ∈ mainLoop c {} inputs) :
+    ∃ t k ip, t.writes = true ∧ c.ips[k]? = some ip ∧ ln = (specCmd c t k ip).render := by
+  obtain ⟨t, ht⟩ := mem_mainLoop c {} inputs ln h
+  obtain ⟨hw, k, ip, h1, h2⟩ := mem_exabgpLines c t ln ht
+  exact ⟨t, k, ip, hw, h1, h2⟩
+
 /-! ## Non-vacuity: the hypotheses are met, and the switches do happen, on concrete histories -/
 
 def s : Inp := { file := false, ok := true }    -- success
